@@ -41,6 +41,7 @@ type smtctx struct {
 	unfolded      map[string]bool // spec instances already unfolded
 	usedSpecs     map[string]bool
 	usedAxioms    map[string]bool
+	sortTypes     map[string]types.Type
 }
 
 func newSMT(w *world) *smtctx {
@@ -228,14 +229,30 @@ const preludeFixed = `(declare-datatypes ((Path 0)) (((pnil) (pfld (pbase Path) 
 (define-fun fid ((r Ref)) Int (pfid (path r)))
 (define-fun oid ((r Ref)) Int (root r))
 (declare-fun tyof (Ref) Int)
+(declare-fun selem (Slice Int) Ref)
+(assert (forall ((s Slice) (i Int)) (! (= (selem s i) (elem (sdata s) (+ (soff s) i))) :pattern ((selem s i)))))
 (assert (= (tyof nil) 0))
 (declare-fun rune2str (Int) String)
 (declare-fun int2str (Int) String)
 `
 
+const selemAxiom = "(declare-fun selem (Slice Int) Ref)\n(assert (forall ((s Slice) (i Int)) (! (= (selem s i) (elem (sdata s) (+ (soff s) i))) :pattern ((selem s i)))))\n"
+const selemDef = "(define-fun selem ((s Slice) (i Int)) Ref (elem (sdata s) (+ (soff s) i)))\n"
+
+// script assembles the SMT-LIB text. For satisfiability (vacuity) queries selem is a plain definition, which
+// keeps the prelude quantifier-free; for validity queries it is an uninterpreted function with a
+// definitional axiom, which gives E-matching good triggers.
 func (c *smtctx) script(nAssume int, goal string, getValues []string) string {
+	return c.scriptMode(nAssume, goal, getValues, false)
+}
+
+func (c *smtctx) scriptMode(nAssume int, goal string, getValues []string, satQuery bool) string {
 	var sb strings.Builder
-	sb.WriteString(preludeFixed)
+	if satQuery {
+		sb.WriteString(strings.Replace(preludeFixed, selemAxiom, selemDef, 1))
+	} else {
+		sb.WriteString(preludeFixed)
+	}
 	for _, d := range c.sortDecls {
 		sb.WriteString(d)
 		sb.WriteString("\n")
